@@ -1,14 +1,14 @@
 package main
 
 import (
-	"sync/atomic"
 	"fmt"
 	"io"
-	"os"
 	"math/rand"
+	"os"
 	"sort"
 	"strings"
 	"sync"
+	"sync/atomic"
 	"time"
 )
 
